@@ -77,9 +77,11 @@ TPick == /\ Is("pick") /\ Len(Ev.saw) > 0
               LET idx == [k \in Kinds |-> IF k = "retry" THEN ir ELSE ic]
                   seen == {k \in Kinds : idx[k] > 0}
                   newest == CHOOSE k \in seen : \A j \in seen : issued[j][idx[j]].no <= issued[k][idx[k]].no
+                  (* the projection may learn only at pick time which older configuration has refilled the caches *)
+                  WithP(r) == IF Ev.pcfg >= 0 THEN [r EXCEPT !.pcfg = Ev.pcfg] ELSE r
               IN /\ IF Same(issued[newest][idx[newest]], Ev)
-                    THEN picked' = issued[newest][idx[newest]] /\ dev' = dev
-                    ELSE \E k \in seen : /\ Same(issued[k][idx[k]], Ev) /\ picked' = issued[k][idx[k]]
+                    THEN picked' = WithP(issued[newest][idx[newest]]) /\ dev' = dev
+                    ELSE \E k \in seen : /\ Same(issued[k][idx[k]], Ev) /\ picked' = WithP(issued[k][idx[k]])
                                          /\ dev' = dev \cup {"ServeOlderSlot"}
                  /\ issued' = [k \in Kinds |-> SubSeq(issued[k], idx[k] + 1, Len(issued[k]))]
          /\ UNCHANGED <<sid, no, pubs, shown, lastReset, ended, tail>>
